@@ -45,6 +45,10 @@ def run(case):
     if tot == 0:
         return undefined("no non-empty row", tags)
     flat = np.array(case["vals"], dtype=dt)
+    if case.get("boolbytes"):
+        # a boolean buffer as other code may hand it over: true cells stored as some non-zero byte (a uint8 flag column viewed as bool); numpy counts each as one
+        flat = np.array(case["vals"], dtype=np.uint8).view(np.bool_)
+        tags.append("bool:bytes-not-0/1")
     rows = gen.split_rows(flat, lens)
     M = max(lens)
     if M >= 8 and min(l for l in lens) <= 1 and n >= 2:
@@ -309,6 +313,12 @@ def directed():
                     vals_[pos_] = bad_
                     for op_ in ("sum0", "mean0", "np.sum0"):
                         yield mk_case(lens_, dtype_, vals_, op_, 0, "fresh", "small")
+    for lens_ in ([3, 1, 3], [2, 0, 4, 1], [1, 1, 1, 1], [5, 2]):
+        for k_ in range(3):
+            vals_ = [[0, 2, 1, 255, 0, 7, 128, 3][(i * (k_ + 1) + k_) % 8] for i in range(sum(lens_))]
+            for op_ in ("sum0", "np.sum0", "mean0", "col_counts", "getcol"):
+                for recv_ in ("fresh", "lazyrows"):
+                    yield dict(mk_case(lens_, "bool", vals_, op_, 0, recv_, "small"), boolbytes=True)
     # complex and extended-precision elements
     for dtype_ in gen.DT_EXOTIC:
         for lens_ in ([2, 0, 3, 1], [4], [1, 5, 0, 2]):
